@@ -571,8 +571,11 @@ def parseChunk(raw):  # reading transfer encoded raw
     size, sep, exts = line.partition(b';')
     try:
         size = int(size.strip().decode('ascii'), 16)
-    except ValueError:  # bad size
-        raise
+        if size < 0:
+            raise ValueError("Negative chunk size")
+    except ValueError:  # bad size so malformed message
+        raise HTTPException("Invalid chunk size line "
+                            "'{0}'".format(line.decode('iso-8859-1')))
 
     if exts:  # parse extensions parameters
         exts = exts.split(b';')
@@ -609,7 +612,7 @@ def parseChunk(raw):  # reading transfer encoded raw
             (yield None)
 
         if line:  # not empty so raise error
-            raise ValueError("Chunk end error. Expected empty got "
+            raise HTTPException("Chunk end error. Expected empty got "
                      "'{0}' instead".format(line.decode('iso-8859-1')))
 
     (yield (size, parms, trails, chunk))
